@@ -1,5 +1,7 @@
 ------------------------- MODULE MC_Emit_DiskChopper -------------------------
 EXTENDS Emit_DiskChopper
 MC_Phases12 == {-17, -12, -5, 0, 1, 7, 12, 30}
+(* beam positions before top-dead-centre and beyond one turn (thorough)                      *)
+MC_BeamT    == {-7, 0, 5, 17}
 MC_Ratios   == {<<1,4>>, <<1,3>>, <<1,2>>, <<1,1>>, <<2,1>>, <<3,1>>, <<4,1>>, <<8,1>>}
 =============================================================================
